@@ -194,6 +194,31 @@ func body(x int, s []int, t T, p *T, i I, e error) (r int) {
 	var _ int = probe(4)
 	return probe(5) + v1 + len(v2)
 }
+
+type Box[E any] struct{ v E }
+
+type Num interface{ ~int | ~float64 }
+
+// captures whose types mention type parameters, bare and inside every composite constructor
+func generic[E any, N Num](b Box[E], a [2]E, st struct{ x E }, pe *E, sl []E, e E, n N, m map[string]E, f func(E) N, ch chan E) {
+	probe(b)
+	probe(a)
+	probe(st)
+	probe(pe)
+	probe(sl)
+	probe(e)
+	probe(n)
+	probe(m)
+	probe(f)
+	probe(ch)
+	probe(b.v)
+	probe(n + 1)
+	probe(Box[[2]E]{})
+	probe2(b, a)
+	probe2(e, n)
+	probe2(st, b)
+	probeN(b, a, e)
+}
 `
 
 // predeclared identifiers shadowed by the package: filters that name `error`, `int32`, `any` must
